@@ -16,7 +16,7 @@ func init() { Registry["C06"] = C06 }
 func C06(p *ir.Program, r *report.R) {
 	c := C{p, r}
 	r.Floor = 30
-	r.Explain = "Decided (very narrow; the conservation equation itself is arithmetic over runtime values and a cgo curve library and is NOT decided): (B1) an unbalanced confidential transaction cannot be accepted unless the acceptance path skips the balance/range checks — every nil return of UTXOTransaction.CheckBasic is dominated by successful checkTxSemantic and checkCommitEqual, and, as all-paths properties, by checkRctSigData when confidential parts exist, by the range-proof check when there are confidential outputs and by the ring-signature check when there are confidential inputs; checkCommitEqual's nil return is dominated by equality of the input and output commitment sums (both non-empty) and every account-side input/output iteration passes the amount-commitment equality; block processing admits a confidential transaction only through a cache hit or a successful basic check, processBlock stops when verification fails, Process checks fee adequacy (CheckStoreState) before executing; (B2) a failed call moves nothing but fees — the snapshot is taken after preTransit and before transitInputs, refundGas reverts to that same snapshot on every vmerr path before any refund, all balance checks of transitInputs precede the first debit. NOT decided: fee arithmetic, EVM/WASM transfers, conservation sums, Bulletproof/commitment soundness."
+	r.Explain = "Decided (very narrow; the conservation equation itself is arithmetic over runtime values and a cgo curve library and is ADDED after seeded-change testing: Amount width: BigInt2Hash's byte loop runs while i < 8 and a value still positive afterwards is rejected with no companion test other than i == 8 / i >= 8 (no truncation modulo 2^64). NOT decided): (B1) an unbalanced confidential transaction cannot be accepted unless the acceptance path skips the balance/range checks — every nil return of UTXOTransaction.CheckBasic is dominated by successful checkTxSemantic and checkCommitEqual, and, as all-paths properties, by checkRctSigData when confidential parts exist, by the range-proof check when there are confidential outputs and by the ring-signature check when there are confidential inputs; checkCommitEqual's nil return is dominated by equality of the input and output commitment sums (both non-empty) and every account-side input/output iteration passes the amount-commitment equality; block processing admits a confidential transaction only through a cache hit or a successful basic check, processBlock stops when verification fails, Process checks fee adequacy (CheckStoreState) before executing; (B2) a failed call moves nothing but fees — the snapshot is taken after preTransit and before transitInputs, refundGas reverts to that same snapshot on every vmerr path before any refund, all balance checks of transitInputs precede the first debit. NOT decided: fee arithmetic, EVM/WASM transfers, conservation sums, Bulletproof/commitment soundness."
 	r.Trusted = []string{"ringct / xcrypto (cgo)", "CalNewAmountGas fee schedule"}
 
 	// ---- B1: CheckBasic ---------------------------------------------------------
@@ -276,6 +276,65 @@ func C06(p *ir.Program, r *report.R) {
 			}
 		}
 	}
+
+	// ---- amount width: commitments encode amounts in 8 little-endian bytes ------------------
+	// BigInt2Hash must reject what does not fit: the byte loop runs while i < 8 and the error
+	// return after it is taken whenever value is still positive (with i == 8 or i >= 8 as the
+	// only admissible companion test). Anything else truncates an over-sized amount modulo 2^64.
+	{
+		fn := p.Func("types", "BigInt2Hash")
+		name := "types.BigInt2Hash"
+		bound := ""
+		for _, l := range ir.Loops(fn) {
+			for b := range l.Body {
+				for _, f := range ir.FactsAtBlock(b) {
+					if ir.Match("lt(φ:i,*)", f.Atom) && l.Body[b] {
+						bound = strings.TrimSuffix(strings.TrimPrefix(f.Atom, "lt(φ:i,"), ")")
+					}
+				}
+			}
+		}
+		r.Check("K11", name+"/byte-loop-bound", p.Pos(fn.Pos()), bound == "8", "the byte loop runs while i < 8 (found bound "+bound+")")
+		okRej := false
+		var seen []string
+		for _, rt := range ir.Returns(fn) {
+			if len(rt.Results) != 2 || ir.Render(rt.Results[1]) != "types.ErrMoneyInvalid" {
+				continue
+			}
+			fs := ir.FactStrings(ir.FactsAt(rt.Instr))
+			hasPos, okI := false, true
+			for _, a := range fs {
+				switch {
+				case ir.Match("lt(0,big.Int.Sign(big.Int.Set(big.NewInt(0),amount)))", a):
+					hasPos = true
+				case strings.Contains(a, "φ:i"):
+					if a != "eq(φ:i,"+bound+")" && a != "le("+bound+",φ:i)" && a != "!lt(φ:i,"+bound+")" {
+						okI = false
+					}
+				}
+			}
+			if hasPos {
+				seen = append(seen, strings.Join(fs, " ; "))
+				if okI {
+					okRej = true
+				} else {
+					okRej = false
+					break
+				}
+			}
+		}
+		r.Check("K11", name+"/overflow-rejected", p.Pos(fn.Pos()), okRej && len(seen) > 0,
+			fmt.Sprintf("a value still positive after the byte loop is rejected; the only admissible companion test is i == %s / i >= %s: %v", bound, bound, seen))
+		// the zero-remainder return is the only success return
+		nOK := 0
+		for _, rt := range ir.Returns(fn) {
+			if len(rt.Results) == 2 && ir.Render(rt.Results[1]) == "nil" {
+				nOK++
+			}
+		}
+		r.Check("K11", name+"/single-success-return", p.Pos(fn.Pos()), nOK == 1, fmt.Sprintf("%d success returns", nOK))
+	}
+
 }
 
 var _ = report.Discharged
